@@ -41,7 +41,7 @@ def parity_of(value, leaf, conds):
 
 
 def run(ctx, chk):
-    fb = ctx.facts('dev')
+    fb = ctx.facts()
     chk.explanation = ('N-clauses: writer = odd store -> release fence -> record copy -> release store of an even non-zero '
                        'value on every path (S1); reader = acquire load -> record copy -> acquire fence -> re-load, accepted only '
                        'if equal and even (S2); the cache is assigned only on acceptance from the same iteration and every Ok '
